@@ -829,39 +829,42 @@ Proof.
     now apply window_factor_total.
 Qed.
 
-(** * The dependency check of the constructor *)
+(** * The dependency check of the constructor
+
+    Two designs that the check of the pinned code got wrong (both replayed on
+    the real code and repaired there; the statements about the repaired check
+    are in Out/ContinuousDeps.v):
+    [later_window_design] - a window over a factor declared later - used to be
+    accepted and raised KeyError while sampling; [chain_design] - a factor
+    depending on one that is derived from a discrete factor only - used to be
+    rejected although sampling it is well defined. *)
 Local Open Scope string_scope.
 
-(** The statement "a design accepted by [__check_dependency] never raises a
-    KeyError while sampling" is false: a window over a factor declared later
-    (or not at all) passes. *)
 Definition later_window_design : list cfactor :=
   [ {| cf_name := "c1"; cf_deps := [DWin (window_post_init ["c0"] 2 1 None)]; cf_cumulative := false |};
     {| cf_name := "c0"; cf_deps := []; cf_cumulative := false |} ].
 
-Lemma dependency_check_sound_refuted :
-  exists fs T trial, NoDup (map cf_name fs) /\ check_dependency fs = true /\
-    forall gen a, _sample_continuous gen T trial fs a [] = Err KeyError.
+Definition chain_design : list cfactor :=
+  [ {| cf_name := "c0"; cf_deps := [DDisc "color"]; cf_cumulative := false |};
+    {| cf_name := "c1"; cf_deps := [DCont "c0"]; cf_cumulative := false |} ].
+
+(** the first still raises while sampling, but is now rejected by the constructor *)
+Lemma later_window_design_rejected :
+  NoDup (map cf_name later_window_design) /\ check_dependency later_window_design = false /\
+  forall gen a, _sample_continuous gen 2 [] later_window_design a [] = Err KeyError.
 Proof.
-  exists later_window_design, 2%nat, []. split; [|split].
+  split; [|split].
   - repeat constructor; cbn; intuition discriminate.
   - reflexivity.
   - intros gen a. reflexivity.
 Qed.
 
-(** The statement "a design whose dependents are all earlier factors of the
-    design is accepted" is false: a factor that depends only on discrete
-    factors (or only on windows) is never recorded, so a factor depending on it
-    is rejected. *)
-Definition chain_design : list cfactor :=
-  [ {| cf_name := "c0"; cf_deps := [DDisc "color"]; cf_cumulative := false |};
-    {| cf_name := "c1"; cf_deps := [DCont "c0"]; cf_cumulative := false |} ].
-
-Lemma dependency_check_complete_refuted :
-  exists fs T trial gen, NoDup (map cf_name fs) /\ check_dependency fs = false /\
-    exists out log, _sample_continuous gen T trial fs O [] = Ok (out, log).
+(** the second is now accepted, and sampled *)
+Lemma chain_design_accepted :
+  NoDup (map cf_name chain_design) /\ check_dependency chain_design = true /\
+  exists out log, _sample_continuous (fun _ _ _ _ => VNum 1) 2 [("color", [VStr "r"; VStr "b"])] chain_design O []
+                  = Ok (out, log).
 Proof.
-  exists chain_design, 2%nat, [("color", [VStr "r"; VStr "b"])], (fun _ _ _ _ => VNum 1).
   split; [|split].
   - repeat constructor; cbn; intuition discriminate.
   - reflexivity.
@@ -870,69 +873,10 @@ Qed.
 
 Local Close Scope string_scope.
 
-(** What the check does guarantee: a *direct* continuous dependent of an
-    accepted design is an earlier factor of the design (or the factor itself,
-    after another continuous dependent - not constructible in Python). *)
 Lemma mem_In : forall k l, mem k l = true <-> In k l.
 Proof.
   intros k. induction l as [|x tl IH]; cbn; [split; [discriminate|tauto]|].
   rewrite orb_true_iff, IH, String.eqb_eq. intuition.
-Qed.
-
-Lemma check_deps_of_inv : forall name deps allf allf',
-  check_deps_of name deps allf = Some allf' ->
-  (forall n, In (DCont n) deps -> In n (name :: allf)) /\
-  (forall k, In k allf' -> In k (name :: allf)).
-Proof.
-  intros name. induction deps as [|d tl IH]; intros allf allf' H; cbn in H.
-  - injection H as <-. split; [intros n []|intros k Hk; right; auto].
-  - destruct d as [z|n0|n0|w].
-    + apply IH in H. destruct H as (H1 & H2). split; auto.
-      intros n [Hd|Hn]; [discriminate|auto].
-    + apply IH in H. destruct H as (H1 & H2). split; auto.
-      intros n [Hd|Hn]; [discriminate|auto].
-    + destruct (mem n0 allf) eqn:Em; [|discriminate].
-      apply IH in H. destruct H as (H1 & H2). apply mem_In in Em. split.
-      * intros n [Hd|Hn]; [injection Hd as <-; right; auto|].
-        destruct (H1 n Hn) as [<-|[<-|Hi]]; cbn; auto.
-      * intros k Hk. destruct (H2 k Hk) as [<-|[<-|Hi]]; cbn; auto.
-    + apply IH in H. destruct H as (H1 & H2). split; auto.
-      intros n [Hd|Hn]; [discriminate|auto].
-Qed.
-
-Lemma check_dependency_from_inv : forall fs allf,
-  check_dependency_from fs allf = true ->
-  forall pre f post, fs = pre ++ f :: post ->
-  forall n, In (DCont n) (cf_deps f) -> In n allf \/ In n (map cf_name pre) \/ n = cf_name f.
-Proof.
-  induction fs as [|f0 tl IH]; intros allf H pre f post Heq n Hn.
-  - destruct pre; discriminate.
-  - cbn [check_dependency_from] in H. destruct pre as [|p pre']; cbn in Heq.
-    + assert (Hf : f0 = f) by congruence. subst f0.
-      destruct (cf_deps f) as [|d ds] eqn:Ed; [destruct Hn|].
-      destruct (check_deps_of (cf_name f) (d :: ds) allf) as [allf'|] eqn:Ec; [|discriminate].
-      apply check_deps_of_inv in Ec. destruct Ec as (H1 & _).
-      destruct (H1 n Hn) as [<-|Hi]; auto.
-    + assert (Hp : f0 = p) by congruence.
-      assert (Ht : tl = pre' ++ f :: post) by congruence. subst f0 tl.
-      assert (Hsub : exists allf1, check_dependency_from (pre' ++ f :: post) allf1 = true /\
-                                   forall k, In k allf1 -> In k (cf_name p :: allf)).
-      { destruct (cf_deps p) as [|d ds] eqn:Ed.
-        - exists (cf_name p :: allf). auto.
-        - destruct (check_deps_of (cf_name p) (d :: ds) allf) as [allf'|] eqn:Ec; [|discriminate].
-          exists allf'. split; auto. apply check_deps_of_inv in Ec. tauto. }
-      destruct Hsub as (allf1 & Hc & Hs).
-      destruct (IH allf1 Hc pre' f post eq_refl n Hn) as [Hi|[Hi|Hi]]; auto.
-      * destruct (Hs n Hi) as [<-|Hi']; cbn; auto.
-      * cbn. auto.
-Qed.
-
-Lemma dependency_check_partial : forall fs pre f post n,
-  check_dependency fs = true -> fs = pre ++ f :: post -> In (DCont n) (cf_deps f) ->
-  In n (map cf_name pre) \/ n = cf_name f.
-Proof.
-  intros fs pre f post n H Heq Hn. unfold check_dependency in H.
-  destruct (check_dependency_from_inv fs [] H pre f post Heq n Hn) as [[]|Hr]. exact Hr.
 Qed.
 
 (** * A concrete design (used by the [Example]s of Properties/C22.v)
